@@ -198,6 +198,12 @@ void env_deallocate__pA_pE_ul (struct Alloc *a, Elem *p, unsigned long n)
   if (p == WB) WBL = 0;
 }
 
+Elem *env_allocate__pA_uc (struct Alloc *a, unsigned char n) { return do_allocate (a, n); }
+Elem *env_allocate__pA_uc_pcv (struct Alloc *a, unsigned char n, const void *hint) { (void) hint; return do_allocate (a, n); }
+void env_deallocate__pA_pE_uc (struct Alloc *a, Elem *p, unsigned char n) { env_deallocate__pA_pE_ul (a, p, n); }
+const unsigned char *env_min__pcuc_pcuc (const unsigned char *a, const unsigned char *b) { return (*b < *a) ? b : a; }
+void env_swap__puc_puc (unsigned char *a, unsigned char *b) { unsigned char t = *a; *a = *b; *b = t; }
+
 unsigned long env_max_size__pcA (const struct Alloc *a) { (void) a; return ALLOC_MAX; }
 
 int __CPROVER_uninterpreted_soccc (int);
@@ -452,3 +458,6 @@ void env_op_call__pG_out (struct Gen *g, Elem *out)
   gen_calls++;
   FORALLW (SET1)
 }
+
+Elem *env_fill_n__pE_uc_pcE (Elem *first, unsigned char n, const Elem *val) { return env_fill_n__pE_ul_pcE (first, n, val); }
+Elem *env_copy_n__pcE_uc_pE (const Elem *first, unsigned char n, Elem *d) { return env_copy_n__pcE_ul_pE (first, n, d); }
